@@ -112,16 +112,29 @@ func (b *builder) msgCfg() sut.Cfg {
 	return c
 }
 
+// hbMask: some receivers bring their own PHBodies that has no room for some kinds of values.
+func (b *builder) hbMask(noHB bool) uint8 {
+	if noHB || !b.r.Chance(1, 4) {
+		return 0
+	}
+	if b.r.Chance(1, 2) {
+		return uint8(1) << uint(b.r.Intn(8))
+	}
+	return uint8(b.r.Intn(256))
+}
+
 func (b *builder) subCfg(kind string) sut.Cfg {
 	c := sut.Cfg{Kind: kind, HdrCap: -1, ConCap: -1, ParCap: -1}
 	switch kind {
 	case "hdrline":
 		c.ConCap = b.capKnob(4)
 		c.NoHB = b.r.Chance(1, 5)
+		c.HBMask = b.hbMask(c.NoHB)
 	case "headers":
 		c.HdrCap = b.capKnob(16)
 		c.ConCap = b.capKnob(4)
 		c.NoHB = b.r.Chance(1, 8)
+		c.HBMask = b.hbMask(c.NoHB)
 	case "nameaddr":
 		c.HType = nameAddrHTypes[b.r.Intn(len(nameAddrHTypes))]
 	case "contacts":
